@@ -699,6 +699,20 @@ Proof.
         exists a1. split; [apply in_or_app; left; exact A|exact B].
       * destruct (IHp2 a y s E2 HG) as [a1 [A B]]. exists a1. split; [apply in_or_app; right; exact A|exact B].
     + discriminate.
+  - (* PopElse *)
+    destruct (aget a l) eqn:El; try discriminate;
+    (destruct (afget a f) eqn:Ef;
+     [ rewrite (fam_empty a s f HG Ef); exact (IHp1 a L s HA HG)
+     | destruct (aexec fuel canfail p1 (afset a f FEmpty)) as [x|] eqn:E1; [|discriminate];
+       destruct (aexec fuel canfail p2 (aset a l AOwn)) as [y|] eqn:E2; [|discriminate]; inv_some;
+       destruct (fget s f) as [|i rest] eqn:Est;
+       [ destruct (IHp1 _ x s E1 (G_refine_empty a s f HG Est)) as [a1 [A B]];
+         exists a1; split; [apply in_or_app; left; exact A|exact B]
+       | assert (HG2 : G (aset a l AOwn) (upd_slots (upd_fams s (set f rest (fams s))) (set l (Some i) (slots s))))
+           by (apply G_pop_some; [exact HG|congruence|exact Ef|exact Est]);
+         destruct (IHp2 _ y _ E2 HG2) as [a1 [A B]];
+         exists a1; split; [apply in_or_app; right; exact A|exact B] ]
+     | discriminate ]).
   - (* FreeAll *)
     destruct (afget a f) eqn:Ef.
     + inv_some. rewrite (fam_empty a s f HG Ef). cbn. exists a. split; [left; reflexivity|apply G_add_ev; exact HG].
